@@ -54,11 +54,11 @@ mod parsing {
 
     pub fn parse_mode(pattern: &str, for_dir: bool) -> Result<u32, Box<dyn Error>> {
         // A mode contains no blanks (the numeric parser would trim them), and
-        // "+OCTAL" is not one: it is what -perm /OCTAL used to be spelled.
-        let old_any_of = pattern
-            .strip_prefix('+')
-            .is_some_and(|rest| !rest.is_empty() && rest.bytes().all(|b| b.is_ascii_digit()));
-        if pattern.contains(char::is_whitespace) || old_any_of {
+        // an octal number has at most one operator before it (the numeric
+        // parser would take a second one for the number's sign).
+        let signs = pattern.len() - pattern.trim_start_matches(['+', '-', '=']).len();
+        let numeric = pattern.contains(|c: char| c.is_ascii_digit());
+        if pattern.contains(char::is_whitespace) || numeric && signs > 1 {
             return Err(From::from(format!("invalid mode '{pattern}'")));
         }
         let mode = if pattern.contains(|c: char| c.is_ascii_digit()) {
@@ -89,6 +89,14 @@ impl PermMatcher {
     #[cfg(unix)]
     pub fn new(pattern: &str) -> Result<Self, Box<dyn Error>> {
         let (comparison_type, pattern) = parsing::split_comparison_type(pattern);
+        // "+OCTAL" by itself is not a mode: it is what -perm /OCTAL used to be
+        // spelled (behind "-" or "/" it is the number, built up from nothing).
+        let old_any_of = pattern
+            .strip_prefix('+')
+            .is_some_and(|rest| !rest.is_empty() && rest.bytes().all(|b| b.is_ascii_digit()));
+        if matches!(comparison_type, ComparisonType::Exact) && old_any_of {
+            return Err(From::from(format!("invalid mode '{pattern}'")));
+        }
         let file_pattern = parsing::parse_mode(pattern, false)?;
         // chmod semantics: X and the set-id bits read differently for a directory.
         let dir_pattern = parsing::parse_mode(pattern, true)?;
